@@ -19,8 +19,8 @@ def d16_key(case, f):
         x, y = f['expected'], f['rescaled']
     elif f['what'].startswith('mean asked after the distribution function'):
         x, y = f['original_after_cdf'] * f['c'], f['rescaled_after_cdf']
-        if abs(f['original_after_cdf'] - f['original_fresh']) > 1e-12 * abs(f['original_fresh']) or \
-                abs(f['rescaled_after_cdf'] - f['rescaled_fresh']) > 1e-12 * abs(f['rescaled_fresh']):
+        if C.gt(abs(f['original_after_cdf'] - f['original_fresh']), 1e-12 * abs(f['original_fresh'])) or \
+                C.gt(abs(f['rescaled_after_cdf'] - f['rescaled_fresh']), 1e-12 * abs(f['rescaled_fresh'])):
             return None          # a history effect is NOT the known finding
     else:
         return None
